@@ -20,7 +20,7 @@ TreeFails(c, tr) ==
       tsites == SitesIn(T, d.left, d.right)
   IN {cl \in {"interval", "parent", "edge", "ns", "nt", "num_edges", "roots", "linked", "sites", "muts", "samples",
               "mrca", "depth", "bl", "tbl", "isdesc", "nlin", "pre", "post", "in", "level", "tasc", "tdesc", "minlex",
-              "leaves", "subpre", "subpost", "numroots"} :
+              "leaves", "subpre", "subpost", "numroots", "mut_edges"} :
      ~ CASE cl = "interval" -> tr.left = d.left /\ tr.right = d.right /\ tr.index \in 0..(NumTrees(T) - 1)
          [] cl = "parent" -> Len(tr.parent) = n + 1 /\ tr.parent[n + 1] = NULL /\ \A u \in NodesOf(T) : tr.parent[u + 1] = par[u]
          [] cl = "edge" -> Len(tr.edge) = n + 1 /\ tr.edge[n + 1] = NULL /\ \A u \in NodesOf(T) : tr.edge[u + 1] = d.edge[u]
@@ -33,6 +33,12 @@ TreeFails(c, tr) ==
          [] cl = "sites" -> ToSet(tr.sites) = {i - 1 : i \in tsites} /\ IsStrictlySorted(tr.sites)
          [] cl = "muts" -> ToSet(tr.muts) = {m - 1 : m \in MutsAtSites(T, tsites)} /\ IsStrictlySorted(tr.muts)
                            /\ tr.num_mutations = Len(tr.muts)
+         \* every mutation of the tree reports its site, node and the id of the edge above its node at the
+         \* site's position (NULL above a root / isolated node), also through site.mutations
+         [] cl = "mut_edges" -> /\ tr.sitemuts = tr.mutrecs
+                                /\ \A i \in 1..Len(tr.mutrecs) : LET r == tr.mutrecs[i] m == T.muts[r[1] + 1] IN
+                                      /\ r[2] = m.site /\ r[3] = m.node
+                                      /\ r[4] = EdgeAt(T, T.sites[m.site + 1].pos)[m.node]
          [] cl = "samples" -> \A u \in NodesOf(T) : /\ ToSet(tr.samples[u + 1]) = Desc(par, u) \cap SamplesOf(T)
                                                    /\ Len(tr.samples[u + 1]) = Cardinality(Desc(par, u) \cap SamplesOf(T))
          [] cl = "mrca" -> \A u, v \in NodesOf(T) : tr.mrca[u + 1][v + 1] = MRCAIn(par, u, v)
@@ -67,8 +73,12 @@ SeqFails(c) ==
       bp == BPSeq(T)
       nt == NumTrees(T)
   IN {cl \in {"index_order", "unique_parents", "num_trees", "breakpoints", "iter", "rev", "at", "firstlast", "diffs_fwd",
-              "diffs_rev", "edgesets", "partition"} :
+              "diffs_rev", "edgesets", "partition", "mutation_edges"} :
      ~ CASE cl = "index_order" -> IndexOK(T)
+         [] cl = "mutation_edges" -> /\ Len(s.mutation_edges) = Len(T.muts)
+                                     /\ \A i \in 1..Len(T.muts) : LET r == s.mutation_edges[i] m == T.muts[i] IN
+                                           r[1] = i - 1 /\ r[2] = m.site /\ r[3] = m.node
+                                           /\ r[4] = EdgeAt(T, T.sites[m.site + 1].pos)[m.node]
          [] cl = "unique_parents" -> \A i \in 1..nt : UniqueParents(T, bp[i])
          [] cl = "num_trees" -> s.num_trees = nt /\ Len(c.trees) = nt
          [] cl = "breakpoints" -> s.breakpoints = bp
